@@ -206,6 +206,8 @@ class Ctx:
             self.stats.unsat += 1
         else:
             self.stats.unknown += 1
+        if CROSS["budget"] > 0 and r != z3.unknown and self.stats.queries in CROSS["at"]:
+            _cross_check(self.solver, str(r))
         self.solver.pop()
         self.stats.solver_s += time.time() - t
         return str(r), model
@@ -407,6 +409,46 @@ class Ctx:
     # -- fresh symbols -----------------------------------------------------
     def fresh_name(self, base):
         return f"{base}!{next(self.fresh)}"
+
+
+# -- cross-solver sample (thorough tier): a few queries per worker are exported as SMT-LIB2 and re-decided by the system
+#    z3 4.8.12 and the cvc5 binary; verdicts are tallied in CROSS["tally"] (agree / disagree / other solver unknown / error)
+CROSS = dict(budget=0, at=(5, 40, 300, 2000), tally={}, disagreements=[])
+
+
+def _cross_check(solver, verdict):
+    import subprocess
+    import tempfile
+    CROSS["budget"] -= 1
+    try:
+        text = "(set-option :produce-models false)\n" + solver.to_smt2()
+    except Exception:
+        return
+    with tempfile.NamedTemporaryFile("w", suffix=".smt2", delete=False) as f:
+        f.write(text)
+        path = f.name
+    try:
+        for name, cmd in (("z3-4.8.12", ["/usr/bin/z3", "-T:20", path]), ("cvc5", ["cvc5", "--tlimit=20000", path])):
+            try:
+                out = subprocess.run(cmd, capture_output=True, text=True, timeout=40).stdout
+            except Exception:
+                out = "error"
+            first = ([ln.strip() for ln in out.splitlines() if ln.strip()] or ["error"])[0]
+            if "(error" in out or first not in ("sat", "unsat", "unknown", "timeout"):
+                key = f"{name}:error"
+            elif first in ("unknown", "timeout"):
+                key = f"{name}:unknown"
+            elif first == verdict:
+                key = f"{name}:agree"
+            else:
+                key = f"{name}:disagree"
+                CROSS["disagreements"].append(f"{name} says {first}, z3 {z3.get_version_string()} says {verdict}")
+            CROSS["tally"][key] = CROSS["tally"].get(key, 0) + 1
+    finally:
+        try:
+            os.unlink(path)
+        except OSError:
+            pass
 
 
 CTX: Ctx | None = None
